@@ -30,6 +30,8 @@ def specs(tier):
     two = [(PR1, 'development/4.3'), (PR2, 'development/5.1')]
     if tier == 'quick':
         return [spec('c19-noq-D3', 'D3', two[:1], depth=5),
+                spec('c19-noq-D3-noprs', 'D3', two[:1], depth=4,
+                     int_prs=False, pushes=0),
                 spec('c19-noq-D3-two', 'D3', two, depth=5,
                      eval_children=False, eval_int_commits=False, pushes=0,
                      init=[['open', PR1, 'development/4.3'],
